@@ -119,6 +119,14 @@ pub fn stress_child(ctx: &Ctx, rest: &[String]) -> i32 {
             TickAction::Continue
         })));
     }
+    {
+        let backend = backend.clone();
+        crate::vstore::stall::spawn_monitor(Duration::from_secs(15), move |_label, detail| {
+            println!("STRESS-VIOLATION {backend}|no-progress-all-threads-blocked :: {detail}");
+            println!("STRESS-DONE backend={backend} rounds=0 operations=0 violations=1 (stalled)");
+            std::process::exit(0);
+        });
+    }
     let mut out = Outcome::default();
     for i in 0..rounds {
         let mut rng = Rng::for_scenario(ctx.seed, "C19-child", i);
@@ -127,6 +135,137 @@ pub fn stress_child(ctx: &Ctx, rest: &[String]) -> i32 {
     let _ = std::fs::remove_dir_all(&dir);
     println!("STRESS-DONE backend={backend} rounds={rounds} operations={} violations={}", out.get("history_operations"), out.violations.len());
     0
+}
+
+/// `vcheck C19-rounds <first> <step> <count> <deadline-secs> <outfile>`: the in-process rounds
+/// `first, first+step, ...` of the thread stress, run in a child so that a deadlock of the workers can
+/// be reported: the outcome file is rewritten after every round; when the stall monitor fires it
+/// writes `<outfile>.stall` and ends the process with exit code 77.
+pub fn rounds_child(ctx: &Ctx, rest: &[String]) -> i32 {
+    let num = |k: usize, d: u64| rest.get(k).and_then(|s| s.parse::<u64>().ok()).unwrap_or(d);
+    let (first, step, count, deadline) = (num(0, 0), num(1, 1).max(1), num(2, 1), num(3, 60));
+    let outfile = rest.get(4).cloned().unwrap_or_default();
+    let dir = ctx.scratch_dir(&format!("c19-{first}"));
+    static CURRENT: std::sync::atomic::AtomicU64 = std::sync::atomic::AtomicU64::new(0);
+    {
+        let stallfile = format!("{outfile}.stall");
+        crate::vstore::stall::spawn_monitor(Duration::from_secs(15), move |label, detail| {
+            let i = CURRENT.load(std::sync::atomic::Ordering::SeqCst);
+            let _ = std::fs::write(&stallfile, json!({"round": i, "backend": if i % 2 == 0 { "memory" } else { "sqlite" }, "section": label, "detail": detail}).to_string());
+            std::process::exit(77);
+        });
+    }
+    // yields between critical sections of the SQLite backend (global hook; outside the lock)
+    set_tick_hook(Some(Arc::new(|_| {
+        static N: std::sync::atomic::AtomicU64 = std::sync::atomic::AtomicU64::new(0);
+        if N.fetch_add(1, std::sync::atomic::Ordering::Relaxed) % 5 == 0 {
+            std::thread::yield_now();
+        }
+        TickAction::Continue
+    })));
+    let start = std::time::Instant::now();
+    let mut out = Outcome::default();
+    for k in 0..count {
+        let i = first + k * step;
+        if start.elapsed() > Duration::from_secs(deadline) {
+            out.info.push(format!("wall-clock budget reached in the shard starting at round {first} after {k} rounds of {count}"));
+            break;
+        }
+        CURRENT.store(i, std::sync::atomic::Ordering::SeqCst);
+        let mut rng = Rng::for_scenario(ctx.seed, "C19", i);
+        let backend = if i % 2 == 0 { "memory" } else { "sqlite" };
+        let mut o = Outcome::default();
+        let r = std::panic::catch_unwind(std::panic::AssertUnwindSafe(|| one_round(backend, i, &mut rng, &mut o, &dir, false)));
+        crate::par::tag_scenario(&mut o, i);
+        if let Err(p) = r {
+            let msg = crate::par::panic_msg(&p);
+            o.violation(format!("C19|panic|{}", crate::util::first_words(&msg, 12)), format!("panic in round {i}: {msg}"), json!({"scenario": i, "seed": ctx.seed, "panic": msg}));
+        }
+        out.merge(o);
+        let _ = std::fs::write(&outfile, serde_json::to_string(&out).unwrap());
+    }
+    set_tick_hook(None);
+    let _ = std::fs::remove_dir_all(&dir);
+    let _ = std::fs::write(&outfile, serde_json::to_string(&out).unwrap());
+    0
+}
+
+/// Parent side of the in-process rounds: shards in child processes, three at a time (each round is
+/// itself multi-threaded).
+fn rounds_pass(ctx: &Ctx, n: u64) -> Outcome {
+    let exe = std::env::current_exe().expect("current exe");
+    let tmp = ctx.scratch_dir("c19-parent");
+    let deadline = ctx.tier.pick(60, 900) as u64;
+    // VERIF_ONLY=<i> (set by hand or by --replay): that round alone
+    let only: Option<u64> = std::env::var("VERIF_ONLY").ok().and_then(|s| s.parse().ok());
+    let plan: Vec<(u64, u64, u64)> = match only {
+        Some(i) if i < n => vec![(i, 1, 1)],
+        Some(_) => vec![],
+        None => {
+            let shards = 6u64;
+            (0..shards).map(|s| (s, shards, n.div_ceil(shards))).collect()
+        }
+    };
+    let next = std::sync::atomic::AtomicU64::new(0);
+    let results = std::sync::Mutex::new(vec![]);
+    std::thread::scope(|s| {
+        for _ in 0..3 {
+            s.spawn(|| {
+                loop {
+                    let k = next.fetch_add(1, std::sync::atomic::Ordering::SeqCst) as usize;
+                    if k >= plan.len() {
+                        break;
+                    }
+                    let (first, step, count) = plan[k];
+                    let outfile = tmp.join(format!("rounds-{first}.json"));
+                    let st = std::process::Command::new(&exe)
+                        .args(["C19-rounds", "--seed", &ctx.seed.to_string(), "--verif-dir", &ctx.verif_dir.to_string_lossy(), "--tier", ctx.tier.pick("quick", "thorough")])
+                        .args([first.to_string(), step.to_string(), count.to_string(), deadline.to_string(), outfile.to_string_lossy().to_string()])
+                        .stdout(std::process::Stdio::null())
+                        .stderr(std::process::Stdio::piped())
+                        .spawn()
+                        .and_then(|c| wait_timeout(c, Duration::from_secs(deadline + 180)));
+                    results.lock().unwrap().push((first, st, outfile));
+                }
+            });
+        }
+    });
+    let mut out = Outcome::default();
+    for (first, st, outfile) in results.into_inner().unwrap() {
+        let partial = std::fs::read_to_string(&outfile).ok().and_then(|s| serde_json::from_str::<Outcome>(&s).ok());
+        match st {
+            Ok(ChildEnd::Exited(0)) => match partial {
+                Some(o) => out.merge(o),
+                None => out.inconclusive.push(format!("rounds shard {first}: no outcome file")),
+            },
+            Ok(ChildEnd::Exited(77)) => {
+                if let Some(o) = partial {
+                    out.merge(o);
+                }
+                let stall: serde_json::Value = std::fs::read_to_string(format!("{}.stall", outfile.display())).ok().and_then(|s| serde_json::from_str(&s).ok()).unwrap_or(json!({}));
+                let backend = stall["backend"].as_str().unwrap_or("?").to_string();
+                let section = stall["section"].as_str().unwrap_or("?").to_string();
+                out.evaluations += 1;
+                out.violation(
+                    format!("C19|no-progress-all-threads-blocked|{backend}|{}", section.split('(').nth(1).unwrap_or(&section).trim_end_matches(')')),
+                    format!("[{backend}, round {}] {}", stall["round"], stall["detail"].as_str().unwrap_or("")),
+                    json!({"scenario": stall["round"], "backend": backend, "section": section}),
+                );
+            }
+            Ok(ChildEnd::Exited(code)) => out.inconclusive.push(format!("rounds shard {first}: child exit code {code} (harness error)")),
+            Ok(ChildEnd::Signal(9, _)) => out.inconclusive.push(format!("rounds shard {first}: child killed by SIGKILL (OOM?)")),
+            Ok(ChildEnd::Signal(sig, stderr)) => {
+                if let Some(o) = partial {
+                    out.merge(o);
+                }
+                out.violation(format!("C19|abnormal-exit|signal={sig}"), format!("rounds shard {first} died with signal {sig}: {}", crate::util::short(&stderr, 400)), json!({"shard": first}));
+            }
+            Ok(ChildEnd::TimedOut) => out.inconclusive.push(format!("rounds shard {first}: watchdog fired (no verdict: the stall monitor did not see all threads blocked)")),
+            Err(e) => out.inconclusive.push(format!("rounds shard {first}: spawn failed {e}")),
+        }
+    }
+    let _ = std::fs::remove_dir_all(&tmp);
+    out
 }
 
 fn harness_dir(ctx: &Ctx) -> PathBuf {
@@ -291,21 +430,12 @@ fn miri_pass(ctx: &Ctx, out: &mut Outcome) {
 pub fn run(ctx: &Ctx) -> i32 {
     let dir = ctx.scratch_dir("c19");
     let n = ctx.budget(300, 20_000) as u64;
-    // yields between critical sections of the SQLite backend (global hook; outside the lock)
-    set_tick_hook(Some(Arc::new(|_| {
-        static N: std::sync::atomic::AtomicU64 = std::sync::atomic::AtomicU64::new(0);
-        if N.fetch_add(1, std::sync::atomic::Ordering::Relaxed) % 5 == 0 {
-            std::thread::yield_now();
-        }
-        TickAction::Continue
-    })));
-    // the stress itself is multi-threaded: run few histories at a time
-    let ctx_few = Ctx { threads: 3, ..ctx.clone() };
-    let mut out = crate::par::run(&ctx_few, n, Duration::from_secs(ctx.tier.pick(60, 900)), |i, rng, out| {
-        let backend = if i % 2 == 0 { "memory" } else { "sqlite" };
-        one_round(backend, i, rng, out, &dir, false)
-    });
-    set_tick_hook(None);
+    // the rounds run in child processes (a deadlock of the workers must be reportable)
+    let mut out = rounds_pass(ctx, n);
+    match crate::vstore::stress::checker_selftest() {
+        Ok(()) => out.info.push("history checker self-test: a new-old inversion between two overlapping writes is rejected, the linearizable variant accepted".into()),
+        Err(e) => out.inconclusive.push(format!("history checker self-test failed (harness error): {e}")),
+    }
     let _ = std::fs::remove_dir_all(&dir);
     if std::env::var("VERIF_SKIP_SANITIZERS").is_err() {
         std::thread::scope(|sc| {
@@ -341,13 +471,13 @@ pub fn run(ctx: &Ctx) -> i32 {
     finish(
         ctx,
         "exploration",
-        "(a) 2-16 threads share one storage instance (memory, SQLite file) over few keys (2 shared groups + 1 group private to thread 0, 2 epochs, 2 wrapper ids); every written value embeds (thread, counter) in a field that round-trips (group name, secret bytes, relay URL path, failure reason), call/return stamps come from one global atomic counter at the client boundary; per key the history is checked with the unique-value method (value was written, not read from the future, not overwritten entirely before the read began, sequential reads monotonic, relay listings never mix two replaces, the private group only ever shows thread 0's tags, no call fails or panics); a writer bumps epoch -> secret -> relays through versions while snapshotters take snapshots that are restored afterwards and must be a consistent cut. SQLite runs with tick-hook yields between critical sections. (b) the same workload in a -Zsanitizer=thread -Zbuild-std build, reports counted from the log, a report with an mdk_* frame is a violation. (c) cargo miri run of the memory-backend subset (single-threaded model differential, 3-thread stress, snapshot cut) with several seeds. distinct = histories in which at least one read overlapped the write it observed",
+        "(a) 2-16 threads share one storage instance (memory, SQLite file) over few keys (2 shared groups + 1 group private to thread 0, 2 epochs, 2 wrapper ids); every written value embeds (thread, counter) in a field that round-trips (group name, secret bytes, relay URL path, failure reason), call/return stamps come from one global atomic counter at the client boundary; per key the history is decided by the complete test for registers with unique writes (Gibbons-Korach zones: no read before its write, no two values each observed throughout overlapping spans, no value confined inside another value's span), preceded by specific necessary conditions that give readable witnesses (value was written, not overwritten entirely before the read began, sequential reads monotonic), plus: relay listings never mix two replaces, the private group only ever shows thread 0's tags, no call fails or panics, no stall (all workers blocked without CPU for 15 s); a writer bumps epoch -> secret -> relays through versions while snapshotters take snapshots that are restored afterwards and must be a consistent cut. SQLite runs with tick-hook yields between critical sections. (b) the same workload in a -Zsanitizer=thread -Zbuild-std build, reports counted from the log, a report with an mdk_* frame is a violation. (c) cargo miri run of the memory-backend subset (single-threaded model differential, 3-thread stress, snapshot cut) with several seeds. distinct = histories in which at least one read overlapped the write it observed",
         out,
         floors,
         vec![
-            "necessary conditions of linearizability only (sound, not complete)".into(),
+            "per-key linearizability is decided completely only for the register-like keys of this workload; the claims / snapshot-cut / rollback-readers workloads check their own stated conditions".into(),
             "SQLCipher's C code is not instrumented by TSan (its pthread mutexes are intercepted); Miri cannot cross the SQLite / secp256k1 FFI and runs the memory backend only".into(),
-            "deadlock freedom is restated as bounded progress under a watchdog; a watchdog firing is inconclusive".into(),
+            "deadlock freedom is restated as bounded progress: a stall monitor inside every stress process reports when all worker threads are blocked (state S) without consuming CPU for 15 s; the parent's wall-clock watchdog firing without that is inconclusive".into(),
         ],
         json!({}),
     )
